@@ -57,6 +57,8 @@ struct Scn {
     st: St,
     bytes: Vec<u8>,
     want: Want,
+    /// "" = the HTTP/1 backend; "/h2" = the cluster with the h2c backend
+    prefix: &'static str,
 }
 
 fn wu(sid: u32, inc: u32) -> Vec<u8> {
@@ -77,7 +79,7 @@ fn many(n: usize, f: Vec<u8>) -> Vec<u8> {
 
 fn scenarios(thorough: bool) -> Vec<Scn> {
     let mut v = vec![];
-    let mut add = |name, st, bytes, want| v.push(Scn { name, st, bytes, want });
+    let mut add = |name, st, bytes, want| v.push(Scn { name, st, bytes, want, prefix: "" });
     // --- before the SETTINGS exchange
     {
         let mut b = PREFACE.to_vec();
@@ -197,6 +199,20 @@ fn scenarios(thorough: bool) -> Vec<Scn> {
     add("after_goaway_ping", St::AfterGoaway, ping(false), Want::Alive);
     // sozu may already have answered the client's GOAWAY with its own GOAWAY(NO_ERROR) and left
     add("after_goaway_bad_frame", St::AfterGoaway, frame(T_PING, 0, 0, b"123"), Want::Conn(vec![FRAME_SIZE, NO_ERROR], true));
+    // --- the same stream states with the h2c backend behind the stream (requests under /h2)
+    drop(add);
+    let mut addh = |name, st, bytes, want| v.push(Scn { name, st, bytes, want, prefix: "/h2" });
+    addh("h2b_closed_wu_ok", St::Closed, wu(1, 100), Want::Alive);
+    addh("h2b_closed_data", St::Closed, frame(T_DATA, 1, 1, b"more"), Want::Either(vec![STREAM_CLOSED]));
+    addh("h2b_open_data_ok", St::Open, frame(T_DATA, 1, 1, b"body"), Want::Alive);
+    addh("h2b_open_wu_stream_zero", St::Open, wu(1, 0), Want::Stream(1, vec![PROTOCOL]));
+    addh("h2b_open_wu_stream_overflow", St::Open, wu(1, 0x7fff_ffff), Want::Stream(1, vec![FLOW]));
+    addh("h2b_open_rst_then_ping", St::Open, frame(T_RST, 0, 1, &8u32.to_be_bytes()), Want::Alive);
+    addh("h2b_open_data_pad_too_long", St::Open, frame(T_DATA, 8, 1, &[9, b'a', b'b']), Want::Conn(vec![PROTOCOL], false));
+    addh("h2b_halfclosed_data", St::HalfClosed, frame(T_DATA, 1, 1, b"more"), Want::Either(vec![STREAM_CLOSED]));
+    addh("h2b_open_settings_overflows_stream_window", St::Open, [wu(1, 0x7fff_ffff - 65535), settings(&[(4, 65536)])].concat(), Want::Conn(vec![FLOW], false));
+    drop(addh);
+    let mut add = |name, st, bytes, want| v.push(Scn { name, st, bytes, want, prefix: "" });
     if thorough {
         add("ping_lifetime_under", St::Ready, many(7, ping(false)), Want::Alive);
         add("wu_many_streams_idle", St::Ready, [wu(3, 1), wu(5, 1)].concat(), Want::Conn(vec![PROTOCOL], false));
@@ -226,13 +242,13 @@ fn run(front: std::net::SocketAddr, s: &Scn) -> Res {
         }
         match s.st {
             St::Open => {
-                p.send(&frame(T_HEADERS, 4, 1, &request_block(true, "/open")));
+                p.send(&frame(T_HEADERS, 4, 1, &request_block(true, &format!("{}/open", s.prefix))));
             }
             St::HalfClosed => {
-                p.send(&frame(T_HEADERS, 5, 1, &request_block(false, "/slow")));
+                p.send(&frame(T_HEADERS, 5, 1, &request_block(false, &format!("{}/slow", s.prefix))));
             }
             St::Closed => {
-                p.send(&frame(T_HEADERS, 5, 1, &request_block(false, "/done")));
+                p.send(&frame(T_HEADERS, 5, 1, &request_block(false, &format!("{}/done", s.prefix))));
                 pre = p.read_until(Duration::from_secs(3), |f| f.iter().any(|x| x.sid == 1 && (x.t == T_HEADERS || x.t == T_DATA) && x.flags & 1 == 1));
                 if !pre.iter().any(|x| x.sid == 1 && x.flags & 1 == 1) {
                     note.push_str(" no-response-before-scenario");
@@ -321,6 +337,95 @@ fn run(front: std::net::SocketAddr, s: &Scn) -> Res {
     Res { name: s.name, summary, viols }
 }
 
+/// Proxy-initiated GOAWAY: SoftStop with one idle connection and one connection holding an open stream.
+/// RFC 9113 6.8: GOAWAY(NO_ERROR) announces the shutdown; streams already open complete; new streams are
+/// refused (REFUSED_STREAM) without tearing the connection down; the connection is then released and the
+/// worker ends.
+fn graceful_shutdown(front: std::net::SocketAddr, w: &mut WorkerHandle) {
+    use sozu_command_lib::proto::command::{request::RequestType, SoftStop};
+    let (Some(mut idle), Some(mut open)) = (Peer::connect(front), Peer::connect(front)) else {
+        println!("viol bb-infra graceful_shutdown: could not connect");
+        return;
+    };
+    if !idle.handshake(&[]) || !open.handshake(&[]) {
+        println!("viol bb-infra graceful_shutdown: handshake failed");
+        return;
+    }
+    // the h2c backend answers only once the request is complete, so stream 1 stays open across the shutdown
+    open.send(&frame(T_HEADERS, 4, 1, &request_block(true, "/h2/shutdown")));
+    let early = open.read_until(Duration::from_millis(400), |_| false);
+    if early.iter().any(|x| x.sid == 1 && (x.t == T_HEADERS || x.t == T_RST)) {
+        println!("viol bb-infra graceful_shutdown: stream 1 was answered before its request was complete");
+        return;
+    }
+    w.send(RequestType::SoftStop(SoftStop {}));
+    let mut bad = |class: &str, text: String| println!("viol {class} graceful_shutdown: {text}");
+    // idle connection: GOAWAY(NO_ERROR), then released
+    let fr = idle.read_until(Duration::from_secs(4), |f| f.iter().any(|x| x.t == T_GOAWAY));
+    let g_idle = fr.iter().find(|x| x.t == T_GOAWAY).and_then(|x| x.code());
+    if g_idle != Some(NO_ERROR) {
+        bad("bb-shutdown-goaway", format!("idle connection: GOAWAY(NO_ERROR) was due, got {g_idle:?}"));
+    }
+    let idle_released = idle.wait_closed(Duration::from_secs(6));
+    if !idle_released {
+        bad("bb-not-released", "the idle connection was not released after the shutdown GOAWAY".into());
+    }
+    // connection with an open stream: GOAWAY(NO_ERROR) but still usable for that stream
+    let fr = open.read_until(Duration::from_secs(4), |f| f.iter().any(|x| x.t == T_GOAWAY));
+    let g_open = fr.iter().find(|x| x.t == T_GOAWAY).and_then(|x| x.code());
+    if g_open != Some(NO_ERROR) {
+        bad("bb-shutdown-goaway", format!("connection with an open stream: GOAWAY(NO_ERROR) was due, got {g_open:?}"));
+    }
+    // a new stream after the GOAWAY is refused, the connection survives it
+    let mut b = frame(T_HEADERS, 5, 3, &request_block(false, "/late"));
+    b.extend(frame(T_PING, 0, 0, b"draining"));
+    open.send(&b);
+    let fr = open.read_until(Duration::from_secs(3), |f| {
+        f.iter().any(|x| x.t == T_PING && x.flags & 1 == 1) && f.iter().any(|x| x.sid == 3)
+    });
+    let refused = fr.iter().any(|x| x.t == T_RST && x.sid == 3 && x.code() == Some(REFUSED));
+    let answered = fr.iter().any(|x| x.t == T_HEADERS && x.sid == 3);
+    if !refused {
+        bad("bb-shutdown-new-stream", format!("a stream opened after the shutdown GOAWAY must be refused (RST_STREAM REFUSED_STREAM); refused={refused} answered={answered} closed={}", open.closed));
+    }
+    if !fr.iter().any(|x| x.t == T_PING && x.flags & 1 == 1) && !open.closed {
+        bad("bb-wedged", "no PING acknowledgement while draining".into());
+    }
+    if std::env::var_os("C15BB_DEBUG").is_some() {
+        for x in &fr {
+            println!("obs dbg after-late-stream t={} sid={} flags={} code={:?} closed={}", x.t, x.sid, x.flags, x.code(), open.closed);
+        }
+    }
+    // the stream that was open before the GOAWAY completes
+    open.send(&frame(T_DATA, 1, 1, b"last-body"));
+    let fr = open.read_until(Duration::from_secs(4), |f| f.iter().any(|x| x.sid == 1 && x.t == T_HEADERS));
+    if std::env::var_os("C15BB_DEBUG").is_some() {
+        for x in &fr {
+            println!("obs dbg after-last-data t={} sid={} flags={} code={:?} closed={}", x.t, x.sid, x.flags, x.code(), open.closed);
+        }
+    }
+    let status = fr.iter().find(|x| x.sid == 1 && x.t == T_HEADERS).and_then(|x| x.payload.first().copied());
+    if status != Some(0x88) {
+        bad("bb-shutdown-cut-request", format!("the request in flight at shutdown was not answered 200 (first HPACK byte {status:?}, closed={})", open.closed));
+    }
+    let open_released = open.wait_closed(Duration::from_secs(8));
+    if !open_released {
+        bad("bb-not-released", "the draining connection was not released after its last stream completed".into());
+    }
+    // and the worker ends
+    let t0 = std::time::Instant::now();
+    while w.alive() && t0.elapsed() < Duration::from_secs(10) {
+        std::thread::sleep(Duration::from_millis(100));
+    }
+    if w.alive() {
+        bad("bb-shutdown-hangs", "the worker did not stop within 10 s of SoftStop although every connection was done".into());
+    }
+    println!(
+        "obs graceful_shutdown idle_goaway={g_idle:?} idle_released={idle_released} open_goaway={g_open:?} late_stream_refused={refused} in_flight_status={status:?} open_released={open_released} worker_stopped={}",
+        !w.alive()
+    );
+}
+
 fn main() {
     let thorough = std::env::args().nth(1).as_deref() == Some("thorough");
     let only = std::env::args().nth(2);
@@ -340,7 +445,12 @@ fn main() {
     l.h2_max_glitch_count = Some(10);
     l.h2_max_header_list_size = Some(4096);
     l.h2_max_concurrent_streams = Some(4);
+    l.h2_graceful_shutdown_deadline_seconds = Some(4);
     configure_https(&mut w, l, front, back, false);
+    let h2_listener = TcpListener::bind("127.0.0.1:0").unwrap();
+    let h2_back = h2_listener.local_addr().unwrap();
+    std::thread::spawn(move || h2c_backend(h2_listener));
+    add_h2_cluster(&mut w, front, h2_back, "/h2");
 
     if !probe(front) {
         println!("viol bb-infra the worker does not serve a well-formed request before any scenario");
@@ -364,6 +474,24 @@ fn main() {
     let served = (0..3).filter(|_| probe(front)).count();
     if served < 3 {
         println!("viol bb-probe-starved only {served} of 3 well-formed requests were served after the scenarios");
+    }
+    // the h2c backend really is behind /h2
+    {
+        let mut ok = false;
+        if let Some(mut p) = Peer::connect(front) {
+            if p.handshake(&[]) {
+                p.send(&frame(T_HEADERS, 0x5, 1, &request_block(false, "/h2/probe")));
+                let fr = p.read_until(Duration::from_secs(3), |f| f.iter().any(|x| x.t == T_DATA && x.sid == 1 && x.flags & 1 == 1));
+                ok = fr.iter().any(|x| x.t == T_DATA && x.sid == 1 && x.payload == b"h2pong");
+            }
+        }
+        if !ok {
+            println!("viol bb-infra the /h2 frontend is not served by the h2c backend");
+        }
+    }
+    let shutdown = only.is_none() || only.as_deref() == Some("graceful_shutdown");
+    if shutdown {
+        graceful_shutdown(front, &mut w);
     }
     println!("obs done scenarios={} probes_ok={served} worker_alive={}", results.len(), w.alive());
     std::process::exit(0);
